@@ -1,8 +1,9 @@
 """C02 — tree.Map/Set iterators stay correct while the tree is modified between Next calls."""
 import vlib
+from scale_common import ScaleSpec
 from tree_common import TreeSpec
 
-SPECS = {"tree": (TreeSpec("c02"), "harness", "runner")}
+SPECS = {"scale": (ScaleSpec(['tree-iter-gen']), "harness", "runner"), "tree": (TreeSpec("c02"), "harness", "runner")}
 
 PROP_FILES = ["C02"]
 
@@ -14,6 +15,9 @@ def run(ctx):
         ctx.violation("harness-build", "the harness does not build against the current tree: " + out[-1500:], {"build_output": out[-4000:]}, failing_input=False)
         return ctx.finish()
     vlib.seq_differential(ctx, TreeSpec("c02"), exe, proofs_ok, tag="tree")
+    okS, outS, exeS = vlib.build_runner()
+    if okS:
+        vlib.seq_differential(ctx, ScaleSpec(['tree-iter-gen']), exeS, proofs_ok, tag="scale")
     vlib.merge_parts(ctx, "cases = (order mode: compare natural/reversed/coarse, less natural/coarse; Map or Set) x prefill (ascending, descending, sawtooth, random to 0..260 keys, node-capacity boundaries) "
                      "x random Put/Delete/Get/Contains/Len/First/Last/Range/RangeReverse with all 9 bound-kind pairs; compared with the B-tree model (exact), the sorted-list spec and an independent ideal map; "
                      "distinct = hash of ops; non-trivial = >= 8 ops")
